@@ -65,12 +65,25 @@ STAGES = [dict(name='schedule', mode='app', coq='Check.C09c', cases=cases, nontr
                rule='one context (exclusive, or shared by three holders some of which leave in mid-run) with 16 actions: {key, mouse button, mouse motion, wheel} x {no condition, Press, Hold} and a key with action-level JustPress / Release / Tap, plus a consuming action on a Ctrl+key chord held over several frames; sub-frame taps (press + release events within one frame) on inputs that are not held; raw input injected as window events before the frame, by resource mutation '
                     'between frames, or from a system in First (fixed and mixed modes); harness systems: a marker before the crate\'s set, a marker + snapshot probe ordered after the set in PreUpdate, a snapshot '
                     'probe in Update; sticky random scripts of 6-20 frames, the virtual clock paused now and then. non-trivial = an episode starts; distinct = distinct scenario text')]
+def late_cases(tier, rng):
+    """contexts created while inputs are down (several bindings per action, a second gamepad holding the bound button):
+    an input that goes down on a binding that is not under the start-up suppression is reflected in that very frame"""
+    import C08
+    for c, tag in C08.cases('quick', rng):
+        if tag in ('several-bindings-per-action', 'other-gamepad-held', 'modifier-order'):
+            yield (c, tag)
+
+STAGES.append(dict(name='late', mode='app', coq='Check.C08w', cases=late_cases, nontrivial=lambda case, out: 'LMod' in out, shard=25,
+                   exhaustive={'thorough': False, 'quick': False},
+                   rule='contexts inserted or rebuilt while some of their inputs are down: actions with 2-4 bindings of which some are held, a context tied to one gamepad while another gamepad holds the bound button, Ctrl+key with the key or the modifier down first; every binding whose own input has been up since creation must be driven in the frame its input goes down'))
+CLAUSES_LATE = {1: 'a binding was driven although its own input has been down in every frame since its instance was created', 2: 'an input went down (or was down) on a binding whose input had been up at least once since creation, and the binding was not driven in that frame: the input is not reflected in the frame it reaches Bevy',
+                12: 'no new instance was built where the join / leave history requires one', 8: 'panic', 9: 'malformed trace', 10: 'panic'}
 CLAUSES = {1: 'data polled by a PreUpdate system ordered after the crate\'s set differs from the data polled in Update', 2: 'data polled in Update differs from the data at the end of the frame',
            3: 'action events were delivered before the crate\'s set ran in this frame (late delivery from the previous frame)', 4: 'action events of the frame were delivered after the probe ordered after the crate\'s set',
            5: 'a frame that did not change an action\'s state delivered Started, Canceled or Completed', 6: 'a binding did not read this frame\'s raw input (one-frame lag, or not evaluated at all in this frame)',
            7: 'the state of a level-triggered action is not the function of this frame\'s raw input', 8: 'equal raw input in two consecutive frames gave different states for a level-triggered action', 30: 'an operation between two frames (a holder of the shared context leaving) changed the polled data of the remaining holders\' instance', 10: 'an action-level JustPress did not fire exactly on the frame its input became active (a frame was not reflected)',
            18: 'panic', 19: 'malformed trace', 20: 'panic'}
-def describe(stage, clause): return CLAUSES.get(clause, 'clause %d' % clause)
+def describe(stage, clause): return (CLAUSES_LATE if stage == 'late' else CLAUSES).get(clause, 'clause %d' % clause)
 def matches_known(k, case, verdict): return False
 TRUSTED = TRUSTED_BASE + ['the system order InputSystem < EnhancedInputSystem < sync point < dependants < Update is an assumption of Model/Frame.frame (partial); the trace comparison detects deviations']
 ASSUMES = ['"no time-dependent condition crosses a threshold" is read as "no condition changes its result"; quiet-frame clause judged on the polled states']
